@@ -487,6 +487,7 @@ class HashRule(ABC):
                         symbol=parts[i],
                         first_level=first_level,
                         ref_is_global_table=False,
+                        ref_resolver=resolver,
                     )
                 )
                 return
@@ -552,6 +553,12 @@ class UndefinedSymbolHashRule(HashRule):
     ref_is_global_table = None  # type: bool
     """If true, ref is the global table, so we should use an `in` check instead of `hasattr`"""
 
+    ref_resolver = None  # type: Optional[Callable]
+    """
+    If set, re-resolves the base reference from the global table, so that the rule notices
+    when the object on which the symbol was missing has been replaced by another one.
+    """
+
     def __init__(
         self,
         ref: object,
@@ -559,6 +566,7 @@ class UndefinedSymbolHashRule(HashRule):
         symbol: str,
         first_level: bool,
         ref_is_global_table: bool,
+        ref_resolver: Optional[Callable] = None,
     ):
         # noinspection PyUnresolvedReferences
         super().__init__(
@@ -569,6 +577,7 @@ class UndefinedSymbolHashRule(HashRule):
         )
         self.ref = ref
         self.ref_is_global_table = ref_is_global_table
+        self.ref_resolver = ref_resolver
 
     def clone(self) -> HashRule:
         return UndefinedSymbolHashRule(
@@ -577,6 +586,7 @@ class UndefinedSymbolHashRule(HashRule):
             self.symbol,
             self.first_level,
             self.ref_is_global_table,
+            self.ref_resolver,
         )
 
     def collect_transitive_dependencies(
@@ -598,7 +608,8 @@ class UndefinedSymbolHashRule(HashRule):
         if self.ref_is_global_table:
             return self.symbol in self.ref
 
-        return hasattr(self.ref, self.symbol)
+        ref = self.ref_resolver() if self.ref_resolver is not None else self.ref
+        return hasattr(ref, self.symbol)
 
     def __repr__(self):
         return "UndefinedSymbolHashRule(parent_symbol={parent_symbol}, symbol={symbol})".format(
